@@ -50,10 +50,15 @@ def random_cases(ctx):
             for _r in range(rng.randint(1, 3)):
                 toks, _, bexp = progs.rand_row(rng, cs, True)
                 rows.append(bexp)
-                if rng.random() < 0.5:
+                z = rng.random()
+                if z < 0.4:
                     parts.append("wr %d %s p" % (n, " ".join(toks)))
-                else:
+                elif z < 0.75 or n < 2:
                     parts += ["wc %s p" % t for t in toks] + ["er p"]
+                else:
+                    # the first j cells one by one, the rest of the row with write_row
+                    j = rng.randint(1, n - 1)
+                    parts += ["wc %s p" % t for t in toks[:j]] + ["wr %d %s p" % (n - j, " ".join(toks[j:]))]
             parts.append(rng.choice(["fin", "drop"]))
             c = mk_case("c07r_%d" % i, [("prepare", cmd_prepare(b"p")), ("execute", cmd_execute(1))],
                         ["p reply 1 0 0", "x all - " + " ".join(parts)], lim=rng.choice([U24_MAX, U24_MAX, 9, 255]))
